@@ -26,6 +26,7 @@ def specs(tier):
         J('jd-lagsnap3-after2:H3R1P1', 'lagging_snap', dict(n=3, journal='file+dump'), dict(H=3, R=1, P=1), dict(j=3, after=2)),
         J('jd-lagsnap2-chunk64:H2R1P1', 'lagging_snap', dict(n=2, journal='file+dump', chunk=64), dict(H=2, R=1, P=1)),
         J('j-pending3-b24:H2P1', 'pending', dict(n=3, journal='file', batch_bytes=24), dict(H=2, P=1), dict(unrep=4)),
+        J('j-pending2-b24:H1P1J1', 'pending', dict(n=2, journal='file', batch_bytes=24, kill_only=('n1:1',)), dict(H=1, P=1, J=1), dict(unrep=4)),
         J('j-deposed3:H1R1P1', 'deposed', dict(n=3, journal='file'), dict(H=1, R=1, P=1)),
     ]
     if not q:
